@@ -31,7 +31,25 @@ def origin(recipe) -> np.ndarray:
     return o
 
 
+def apply_scale(recipe):
+    """Recipe with the optional key "scale" applied to every length (domain, origin,
+    fracture coordinates, simplex cell size); the number of Cartesian cells is kept."""
+    sc = recipe.get("scale")
+    if not sc or sc == 1:
+        return recipe
+    r = copy.deepcopy(recipe)
+    r.pop("scale")
+    r["domain"] = [float(v) * sc for v in r["domain"]]
+    r["fractures"] = [[[float(x) * sc for x in p] for p in f] for f in r["fractures"]]
+    if r.get("origin") is not None:
+        r["origin"] = [float(v) * sc for v in r["origin"]]
+    if "h" in r:
+        r["h"] = float(r["h"]) * sc
+    return r
+
+
 def build(recipe):
+    recipe = apply_scale(recipe)
     dim = recipe["dim"]
     L = [float(v) for v in recipe["domain"]]
     o = origin(recipe)
